@@ -4,6 +4,7 @@ import (
 	"context"
 	"encoding/json"
 	"fmt"
+	"os"
 	"sort"
 	"strings"
 	"time"
@@ -91,6 +92,30 @@ func bodyC06(r *sim.Run) {
 		}
 		cases = append(cases, w.buildCase(impl, A, B, C, D, E))
 	}
+	// the verifying node may have met these servers before: its database then
+	// holds what they published at this instant (current keys with their
+	// valid_until_ts, retired keys with their expired_ts), which the gap below
+	// can make stale
+	preload := map[pair]entry{}
+	if t.Chance(400) {
+		for _, sv := range w.origins {
+			if !t.Bool() {
+				continue
+			}
+			for _, k := range sv.Keys {
+				p := pair{ServerName: sv.Name, KeyID: k.ID}
+				e := entry{VerifyKey: gmsl.VerifyKey{Key: spec.Base64Bytes(k.Pub)}}
+				if k.Current() {
+					e.ValidUntilTS = spec.AsTimestamp(time.Now().Add(sv.ValidFor))
+				} else {
+					e.ExpiredTS = spec.AsTimestamp(k.ExpiredAt)
+				}
+				preload[p] = e
+				w.db.durable[p] = e
+			}
+		}
+		r.Probe("verifier_database_preloaded")
+	}
 	// time passes before verification; keys may rotate meanwhile
 	if t.Chance(600) {
 		d := time.Duration(sim.Pick(t, []int{1, 3600, 86400, 3 * 86400, 7 * 86400, 8 * 86400, 40 * 86400})) * time.Second
@@ -108,12 +133,14 @@ func bodyC06(r *sim.Run) {
 	}
 	useRing := t.Chance(650)
 	var verifier gmsl.JSONVerifier
+	var shim *ringShim
 	if useRing {
-		verifier = &gmsl.KeyRing{KeyDatabase: w.db, KeyFetchers: []gmsl.KeyFetcher{&gmsl.DirectKeyFetcher{
+		shim = &ringShim{w: w, ring: &gmsl.KeyRing{KeyDatabase: w.db, KeyFetchers: []gmsl.KeyFetcher{&gmsl.DirectKeyFetcher{
 			Client:            w.client,
 			IsLocalServerName: func(n spec.ServerName) bool { return n == w.local.Name },
 			LocalPublicKey:    spec.Base64Bytes(w.local.Keys[0].Pub),
-		}}}
+		}}}}
+		verifier = shim
 		r.Probe("verifier_real_keyring")
 	} else {
 		verifier = &world.Verifier{L: w.led}
@@ -130,6 +157,7 @@ func bodyC06(r *sim.Run) {
 			evs = append(evs, c.ev)
 		}
 		var errs []error
+		db0 := w.db.snapshot()
 		if len(evs) > 1 && t.Bool() {
 			errs = gmsl.VerifyAllEventSignatures(ctx, evs, verifier, uid)
 			r.Check(len(errs) == len(evs), "C06", "shape", "verify_all_len", "VerifyAllEventSignatures returned %d results for %d events", len(errs), len(evs))
@@ -138,9 +166,27 @@ func bodyC06(r *sim.Run) {
 				errs = append(errs, gmsl.VerifyEventSignatures(ctx, ev, verifier, uid))
 			}
 		}
+		// with the real key ring, what may be expected of each event follows
+		// from what its database held and what each call really fetched
+		var canAccept, mustAccept []bool
+		var whyNot []string
+		if useRing {
+			canAccept, mustAccept, whyNot = w.flowExpect(cases, db0, t1, shim.calls)
+		}
 		for i, c := range cases {
 			r.Op()
 			want, why := w.expect(c, t1, useRing)
+			if useRing && canAccept != nil {
+				got := errs[i] == nil
+				r.Logf("t=%v verify #%d %s -> %v (with the keys the ring held or fetched: may accept=%v must accept=%v %s)", r.Now(), i, c.desc, errs[i], canAccept[i], mustAccept[i], whyNot[i])
+				if got && !canAccept[i] {
+					r.Violate("C06", "soundness", whyTag(whyNot[i]), "event %s verified although %s", c.desc, whyNot[i])
+				}
+				if !got && mustAccept[i] {
+					r.Violate("C06", "completeness", "all_required_valid", "event %s refused (%v) although every required server validly signed it and the ring obtained the keys that show it", c.desc, errs[i])
+				}
+				continue
+			}
 			got := errs[i] == nil
 			r.Logf("t=%v verify #%d %s -> %v (expected ok=%v: %s)", r.Now(), i, c.desc, errs[i], want, why)
 			if got && !want {
@@ -400,6 +446,14 @@ func sortedNames(m map[spec.ServerName][]sigPlan) []string {
 // expect computes, from the ledger alone, whether every required server has
 // at least one valid signature, and if not, why.
 func (w *kworld) expect(c *evCase, t1 time.Time, ring bool) (bool, string) {
+	return w.expectWith(c, t1, ring, nil)
+}
+
+// expectWith is expect with, for (server, key ID) pairs the verifier's
+// database held before the gap and that are still inside their validity at
+// t1, the database's view (active until its valid_until_ts) instead of the
+// ledger's.
+func (w *kworld) expectWith(c *evCase, t1 time.Time, ring bool, cached map[pair]entry) (bool, string) {
 	ts := spec.AsTimestamp(c.ts)
 	for _, sv := range c.required {
 		ok := false
@@ -425,6 +479,9 @@ func (w *kworld) expect(c *evCase, t1 time.Time, ring bool) (bool, string) {
 				continue
 			}
 			expired := !k.Current() && !k.ExpiredAt.After(t1)
+			if os.Getenv("C06_DEBUG") != "" {
+				w.r.Logf("    expect: %s %s current=%v expiredAt=%v t1=%v ts=%v cached=%d", sv.Name, pl.keyID, k.Current(), k.ExpiredAt.UnixMilli(), t1.UnixMilli(), ts, len(cached))
+			}
 			switch {
 			case expired:
 				if ts < spec.AsTimestamp(k.ExpiredAt) {
@@ -453,4 +510,195 @@ func (w *kworld) expect(c *evCase, t1 time.Time, ring bool) (bool, string) {
 		}
 	}
 	return true, "all required signers valid"
+}
+
+// ---- what the real key ring is expected to say, given its database ------------------
+
+// truthRecord is what server sv publishes about key id at t1 (honest servers).
+func truthRecord(sv *world.Server, id gmsl.KeyID, t1 time.Time) (entry, bool) {
+	k := sv.KeyByID(id)
+	if k == nil || k.From.After(t1) {
+		return entry{}, false
+	}
+	e := entry{VerifyKey: gmsl.VerifyKey{Key: spec.Base64Bytes(k.Pub)}}
+	if k.Current() || k.ExpiredAt.After(t1) {
+		e.ValidUntilTS = spec.AsTimestamp(t1.Add(sv.ValidFor))
+	} else {
+		e.ExpiredTS = spec.AsTimestamp(k.ExpiredAt)
+	}
+	return e, true
+}
+
+// recordValid is the key-validity rule applied to one obtained record.
+func recordValid(e entry, ts spec.Timestamp, t1 time.Time, strict bool) bool {
+	if e.ExpiredTS != 0 {
+		return ts < e.ExpiredTS
+	}
+	if !strict {
+		return true
+	}
+	limit := e.ValidUntilTS
+	if c7 := spec.AsTimestamp(t1.Add(7 * 24 * time.Hour)); c7 < limit {
+		limit = c7
+	}
+	return e.ValidUntilTS != 0 && ts <= limit
+}
+
+// passes evaluates one event under a view (pair -> record): every required
+// server needs one signature that is intact, of a supported algorithm, made
+// with the key the record holds, and valid at the event's timestamp.
+func (w *kworld) passes(c *evCase, t1 time.Time, view func(pair) (entry, bool)) (bool, string) {
+	ts := spec.AsTimestamp(c.ts)
+	for _, sv := range c.required {
+		ok, why := false, "absent"
+		for _, pl := range c.plans[sv.Name] {
+			switch {
+			case pl.kind == "absent":
+				continue
+			case pl.corrupt:
+				why = "corrupt"
+				continue
+			case !strings.HasPrefix(string(pl.keyID), "ed25519:"):
+				why = "unsupported_algorithm"
+				continue
+			}
+			e, have := view(pair{ServerName: sv.Name, KeyID: pl.keyID})
+			if !have {
+				why = "unknown_key_id"
+				continue
+			}
+			if pl.signer == nil || string(e.Key) != string(pl.signer.Pub) {
+				why = "wrong_key"
+				continue
+			}
+			if !recordValid(e, ts, t1, isStrict(c.ver)) {
+				if e.ExpiredTS != 0 {
+					why = "key_expired_before_event"
+				} else {
+					why = "beyond_valid_until"
+				}
+				continue
+			}
+			ok = true
+		}
+		if !ok {
+			return false, fmt.Sprintf("%s: required server %s has no valid signature", why, sv.Name)
+		}
+	}
+	return true, "all required signers valid"
+}
+
+// ringShim passes VerifyJSONs through to the real key ring and records, per
+// call, which servers were asked for and which the key client really answered
+// for during the call.
+type ringShim struct {
+	w     *kworld
+	ring  *gmsl.KeyRing
+	calls []ringCall
+}
+
+type ringCall struct {
+	servers map[spec.ServerName]bool
+	fetched map[spec.ServerName]bool
+}
+
+func (s *ringShim) VerifyJSONs(ctx context.Context, reqs []gmsl.VerifyJSONRequest) ([]gmsl.VerifyJSONResult, error) {
+	s.w.client.mu.Lock()
+	from := len(s.w.client.answered)
+	s.w.client.mu.Unlock()
+	res, err := s.ring.VerifyJSONs(ctx, reqs)
+	c := ringCall{servers: map[spec.ServerName]bool{}, fetched: map[spec.ServerName]bool{}}
+	for _, q := range reqs {
+		c.servers[q.ServerName] = true
+	}
+	s.w.client.mu.Lock()
+	for _, n := range s.w.client.answered[from:] {
+		c.fetched[n] = true
+	}
+	s.w.client.mu.Unlock()
+	s.calls = append(s.calls, c)
+	return res, err
+}
+
+// flowExpect says, event by event, what the real key ring may and must
+// answer. The verifier has no ground truth: it knows what its database held
+// (db0, then whatever earlier calls fetched and stored) and what the call at
+// hand fetched (honest, reachable servers: the ledger as of t1). An event may
+// be accepted if every required server has a signature that is valid under
+// the record the ring held or under the record it fetched; it must be
+// accepted if every required server has one that is valid under what the
+// ring ends the call with (fetched where it fetched, held otherwise). Which
+// of two obtained records the ring prefers when it did not have to decide is
+// left to it.
+func (w *kworld) flowExpect(cs []*evCase, db0 map[pair]entry, t1 time.Time, calls []ringCall) (can, must []bool, why []string) {
+	db := map[pair]entry{}
+	for p, e := range db0 {
+		db[p] = e
+	}
+	can, must, why = make([]bool, len(cs)), make([]bool, len(cs)), make([]string, len(cs))
+	k := 0
+	for i, c := range cs {
+		// the call made for this event: the next one whose servers are the
+		// event's required servers (events without any usable signature of a
+		// required server still make the call; one that fails before it does not)
+		var call *ringCall
+		if k < len(calls) {
+			match := len(calls[k].servers) == len(c.required)
+			for _, sv := range c.required {
+				if !calls[k].servers[sv.Name] {
+					match = false
+				}
+			}
+			if match {
+				call = &calls[k]
+				k++
+			}
+		}
+		fetched := map[spec.ServerName]bool{}
+		if call != nil {
+			fetched = call.fetched
+		}
+		held := func(p pair) (entry, bool) { e, ok := db[p]; return e, ok }
+		ended := func(p pair) (entry, bool) {
+			if fetched[p.ServerName] {
+				if sv := w.srv(p.ServerName); sv != nil {
+					return truthRecord(sv, p.KeyID, t1)
+				}
+				return entry{}, false
+			}
+			return held(p)
+		}
+		okEnded, whyEnded := w.passes(c, t1, ended)
+		must[i] = okEnded
+		// may accept: per required server, valid under the held or the ended record
+		can[i] = true
+		for _, sv := range c.required {
+			one := &evCase{required: []*world.Server{sv}, plans: c.plans, ts: c.ts, ver: c.ver}
+			a, _ := w.passes(one, t1, held)
+			b, wb := w.passes(one, t1, ended)
+			if !a && !b {
+				can[i], why[i] = false, wb
+				break
+			}
+		}
+		if can[i] {
+			why[i] = whyEnded
+		}
+		if len(fetched) > 0 {
+			w.r.Probe("c06_decided_after_fetch")
+		} else if okEnded {
+			w.r.Probe("c06_accept_with_cached_keys")
+		}
+		// what the call leaves in the database
+		for name := range fetched {
+			if sv := w.srv(name); sv != nil {
+				for _, key := range sv.Keys {
+					if e, ok := truthRecord(sv, key.ID, t1); ok {
+						db[pair{ServerName: name, KeyID: key.ID}] = e
+					}
+				}
+			}
+		}
+	}
+	return can, must, why
 }
